@@ -37,6 +37,20 @@ pub fn run(l: &[i128]) -> Vec<i128> {
     paint.blend_mode = MODES[mode];
     paint.anti_alias = aa;
     paint.force_hq_pipeline = hq;
+    if kind == 6 {
+        // three identical rows (destination and mask), one rectangle over all of them: the middle row
+        use tiny_skia::{Rect, Transform};
+        paint.anti_alias = false;
+        let mut pm3 = Pixmap::new(w as u32, 3).unwrap();
+        let mut mask3 = Mask::new(w as u32, 3).unwrap();
+        for y in 0..3 {
+            pm3.data_mut()[4 * w * y..4 * w * (y + 1)].copy_from_slice(pm.data());
+            mask3.data_mut()[w * y..w * (y + 1)].copy_from_slice(mask.data());
+        }
+        let rect = Rect::from_xywh(x0 as f32, 0.0, len as f32, 3.0).unwrap();
+        pm3.fill_rect(rect, &paint, Transform::identity(), if has_mask { Some(&mask3) } else { None });
+        return pm3.data()[4 * w..8 * w].iter().map(|x| *x as i128).collect();
+    }
     if kind == 4 || kind == 5 {
         use tiny_skia::{Rect, Transform};
         paint.anti_alias = false;
